@@ -27,7 +27,10 @@ RULE = ('synthetic cycle tables whose four feature columns take values on, one u
         'in another order than the library\'s own (sorted by name, reversed, shuffled) and some with an unrelated extra '
         'column (labels and features are read by name), threshold vectors from a grid in [0,1]^4 and out-of-range/NaN values, '
         'min_n_cycles in -1..6; plus compute_features(burst_method="cycles") on generated signals with the '
-        'thresholds the caller passed (routing + defaults, min_n_cycles 0..4; the returned table re-ordered the same way before the second call). Every returned table is labelled a second '
+        'thresholds the caller passed (routing + defaults, min_n_cycles 0..4; the returned table re-ordered the same way before the second call); '
+        'about 15 % of these calls (+bk) also carry a non-empty burst_kwargs dictionary (options of the amplitude method, '
+        'which the unchanged library accepts and ignores when burst_method="cycles") whose min_n_cycles differs from the '
+        'thresholds\' count, made through compute_features and through Bycycle.fit: labels = rule with the thresholds\' count. Every returned table is labelled a second '
         'time by detect_bursts_cycles with one threshold raised (+0.1, to the next double, or to the feature value of one '
         'of its rows) or min_n_cycles + 1: second labels = rule, and a subset of the first. Settings outside the '
         'quantifier (thresholds outside [0,1] or NaN, negative min_n_cycles) and the dtype of the label column are '
@@ -37,7 +40,12 @@ ASSUMPTIONS = ['the statement oracle judges thresholds in [0,1]^4 and integer mi
                'error classes for other settings, acceptance of NaN thresholds, the empty label column of a table '
                'without cycles and the boolean dtype of is_burst are pinned by the model comparison (table stream) '
                'or recorded in the evidence (pipeline stream: nonbool_label_columns)',
-               'label values are read through bool()']
+               'label values are read through bool()',
+               'pipeline stream, +bk cases: burst_kwargs (options of the amplitude method) given together with '
+               'burst_method="cycles" are accepted by the library; the statement oracle judges the labels of the '
+               'compute_features table and of the Bycycle.fit table with the THRESHOLDS\' min_n_cycles (else 3); that the two '
+               'tables are equal, or that Bycycle.fit raises where compute_features does not, is compared through the model '
+               'comparison only']
 DEFAULTS = {'amp_fraction_threshold': 0., 'amp_consistency_threshold': .5,
             'period_consistency_threshold': .5, 'monotonicity_threshold': .8, 'min_n_cycles': 3}
 KEYS = ['amp_fraction_threshold', 'amp_consistency_threshold', 'period_consistency_threshold', 'monotonicity_threshold']
@@ -90,6 +98,9 @@ def cases(rng, tier):
         if rng.random() < 0.12:
             c['thr'] = dict(c['thr'] or {}, min_n_cycles=0)     # 0 is a documented value (every run is long enough)
         c['raise'] = _gen_raise(rng)
+        if c.get('other'):
+            # options of the method that is not selected (pipeline.other_method_options): also through the object interface
+            c['fit'] = True
         out.append(c)
     # column layout of the table handed to detect_bursts_cycles (table stream: both calls; pipeline stream: the second
     # call on the returned table). Drawn after everything else, so that the cases themselves are those of earlier runs.
@@ -330,7 +341,7 @@ def kind_of(c, o):
 
 
 def extra_evidence():
-    return {'c06_statistics': dict(_STATS)}
+    return {'c06_statistics': dict(_STATS), 'pipeline_stream': pipeline.extra_evidence()}
 
 
 def coq_case(c, o):
